@@ -23,7 +23,9 @@ def mkWorld (j : Json) : World V :=
     islower := fun k => isl.getD k true
     fp := fun a v => (fp.lookup (a, v)).getD none
     pred := fun k v => (pred.lookup (k, v)).getD false
-    addConv := fun v => (addc.lookup v).getD none }
+    addConv := fun v => (addc.lookup v).getD none
+    copy := fun v => v
+    schemaExcluded := nats (fld j "schema_excluded") }
 
 def mkFlag (j : Json) : Flag :=
   match j with
@@ -94,10 +96,10 @@ def errJ : Err → Json
 def dictJ (d : List (Key × V)) : Json :=
   Json.arr (d.map fun kv => Json.arr #[Json.num kv.1, Json.str kv.2]).toArray
 
-def outcomeJ (P : Parser V) (o : Opts V) : Outcome V → Json
+def outcomeJ (W : World V) (P : Parser V) (o : Opts V) : Outcome V → Json
   | .ok m a => Json.mkObj [("ok", Json.mkObj [("mapping", dictJ m), ("attrs", dictJ a),
       ("getattr", Json.arr (P.fields.map fun kf =>
-        Json.arr #[Json.num kf.2.attname, match getattrView o kf.2 m a with | some v => Json.str v | none => Json.null]).toArray)])]
+        Json.arr #[Json.num kf.2.attname, match getattrView W o kf.2 m a with | some v => Json.str v | none => Json.null]).toArray)])]
   | .raised e => Json.mkObj [("raised", errJ e)]
   | .collected es => Json.mkObj [("collected", Json.arr (es.map errJ).toArray)]
 
@@ -112,7 +114,8 @@ def handle (j : Json) : Json :=
       ownOpts := !(isNull (fld cj "opts"))
       additionTyped := bool! (fld cj "addition_typed")
       bases := nats (fld cj "bases")
-      drops := nats (fld cj "drops") }
+      drops := nats (fld cj "drops")
+      excluded := nats (fld cj "excluded") }
   let decls : List (ClassDecl V) := match obj? j "classes" with
     | some cs => (arr! cs).map mkClass
     | none => [mkClass (fld j "cls")]
@@ -126,14 +129,14 @@ def handle (j : Json) : Json :=
                       predSkipsMode := bool! (fld lj "pred_skips_mode") }
   let P := B.parser
   let o := (runtime.getD B.opts).normalise
-  let run (st : St V) := outcomeJ P o (finish L W P o { st with errs := paramsCheck o data.length ++ st.errs })
+  let run (st : St V) := outcomeJ W P o (finish L W P o { st with errs := paramsCheck o data.length ++ st.errs })
   let legacyStrategies := bool! (fld lj "strategies")
   let df := if legacyStrategies then dataFirstLegacy W P o data else dataFirst L W P o data
   let ff := if legacyStrategies then fieldFirstLegacy W P o data else fieldFirst L W P o data
   let declared := if useDataFirst P o then df else ff
   let sp := Spec.contract W P o data
   Json.mkObj [
-    ("wf", Json.bool (P.wf W)),
+    ("wf", Json.bool (P.wf W)), ("exclude_vars", natsJ P.excludeVars),
     ("wf_all", Json.arr ((buildAll W decls).map fun b => Json.bool (b.parser.wf W)).toArray),
     ("data_first", Json.bool (useDataFirst P o)),
     ("model", run declared),
